@@ -191,3 +191,21 @@ Proof.
              | |- context[if ?c then _ else _] => destruct c eqn:?
              end; b2p; (split; [f_equal; rewrite ?Z2Nat.id by lia; nia|apply in_seq; lia]).
 Qed.
+
+(* ---------- writing one stored element changes exactly that entry (and its mirror image) ---------- *)
+Theorem write_dense {T} (zero : T) e L U (data : Z -> T) dim off i j i' j' x :
+  band_ok e L U -> off_ok e L U dim off -> in_range dim i j -> in_range dim i' j' ->
+  stored e L U i j = true -> stored e L U i' j' = true ->
+  dense zero e L U (fun p => if p =? index e L U i j off then x else data p) off i' j' =
+  (if (fst (canon e i' j') =? fst (canon e i j)) && (snd (canon e i' j') =? snd (canon e i j)) then x
+   else dense zero e L U data off i' j').
+Proof.
+  intros Hb Ho Hr Hr' Hs Hs'. unfold dense. rewrite Hs'.
+  destruct (Z.eqb_spec (index e L U i' j' off) (index e L U i j off)) as [E|NE].
+  - rewrite (index_injective e L U dim off i' j' i j Hb Ho Hr' Hr Hs' Hs E). rewrite !Z.eqb_refl. reflexivity.
+  - destruct ((fst (canon e i' j') =? fst (canon e i j)) && (snd (canon e i' j') =? snd (canon e i j))) eqn:EC; [|reflexivity].
+    exfalso. apply NE. b2p.
+    destruct e; cbn [canon index fst snd] in *;
+      repeat match goal with H : context[if ?c then _ else _] |- _ => destruct c eqn:? end; cbn [fst snd] in *; b2p; subst;
+      cmp_cases; try reflexivity; try lia; try nia.
+Qed.
